@@ -732,9 +732,12 @@ def nm_run(d, cls, cont=None, place=None):
 
 def nm_requests(d, runs):
     """driver requests for one variant: the model run over history + continuation, one monitor per recorded run"""
-    reqs = [('nested4', d.enc_cfg4() + d.enc_script() + nested._l(list(d.history) + list(d.cont)))]
+    hist = list(d.history) + list(d.cont)
+    reqs = [('nested4', d.enc_cfg4() + d.enc_script() + nested._l(hist))]
+    ncmds = sum(len(v[0]) for v in d.script.values())
+    bounds = [(len(hist) + ncmds + 2) * 8, ncmds + 2]        # as `nested4Case` computes them
     for r in runs:
-        reqs.append(('c04n', d.enc_cfg4() + nested.enc_sval(r.states_after[0]) + common.enc_items(r.items)))
+        reqs.append(('c04n', bounds + d.enc_cfg4() + nested.enc_sval(r.states_after[0]) + common.enc_items(r.items)))
     return reqs
 
 
